@@ -182,6 +182,60 @@ func verifInWindows(events []verifEventSpec, t time.Time) bool {
 	return false
 }
 
+// verifEarliestWindowStart returns the earliest start among the windows
+// (sub-spans for /N splits) of the timer that contain t.
+func verifEarliestWindowStart(events []verifEventSpec, t time.Time) (time.Time, bool) {
+	var best time.Time
+	found := false
+	for _, ev := range events {
+		for back := 0; back <= 1; back++ {
+			dayStart := time.Date(t.Year(), t.Month(), t.Day(), 0, 0, 0, 0, t.Location()).AddDate(0, 0, -back)
+			if len(ev.days) > 0 {
+				m := false
+				for _, d := range ev.days {
+					if d.matches(dayStart) {
+						m = true
+					}
+				}
+				if !m {
+					continue
+				}
+			}
+			for _, cl := range ev.clocks {
+				start := dayStart.Add(time.Duration(cl.startMin) * time.Minute)
+				var end time.Time
+				switch {
+				case cl.single:
+					end = start.Add(time.Minute)
+				case cl.endMin > cl.startMin:
+					end = dayStart.Add(time.Duration(cl.endMin) * time.Minute)
+				default:
+					end = dayStart.Add(time.Duration(cl.endMin+24*60) * time.Minute)
+				}
+				if t.Before(start) || t.After(end) {
+					continue
+				}
+				ws := start
+				if cl.split > 1 && !cl.single {
+					step := end.Sub(start) / time.Duration(cl.split)
+					if step > 0 {
+						i := int(t.Sub(start) / step)
+						if i >= cl.split {
+							i = cl.split - 1
+						}
+						// (the implementation cuts sub-span boundaries to the minute)
+						ws = start.Add(time.Duration(i) * step).Truncate(time.Minute)
+					}
+				}
+				if !found || ws.Before(best) {
+					best, found = ws, true
+				}
+			}
+		}
+	}
+	return best, found
+}
+
 // verifInMisanchoredSplit recognises one specific deviation (recorded as a
 // known finding): for a span that crosses midnight AND is split with /N, a
 // sub-span that begins after midnight is placed on the matching day itself
@@ -226,7 +280,13 @@ func verifInMisanchoredSplit(events []verifEventSpec, t time.Time) bool {
 }
 
 func verifGenTimer(c *verifsim.Ctx) ([]verifEventSpec, string) {
-	clockMin := func(l string) int { return c.Draw(l+"-h", 24)*60 + []int{0, 15, 30, 45}[c.Draw(l+"-m", 4)] }
+	clockMin := func(l string) int {
+		m := []int{0, 15, 30, 45, -1}[c.Draw(l+"-m", 5)]
+		if m < 0 {
+			m = c.Draw(l+"-odd-minute", 60)
+		}
+		return c.Draw(l+"-h", 24)*60 + m
+	}
 	genClock := func() verifClockSpec {
 		cs := verifClockSpec{startMin: clockMin("from")}
 		switch c.Draw("clock-kind", 4) {
@@ -237,7 +297,8 @@ func verifGenTimer(c *verifsim.Ctx) ([]verifEventSpec, string) {
 		case 2:
 			cs.spread = true
 		case 3:
-			cs.split = 2 + c.Draw("split", 3)
+			// (also splits that do not give whole minutes, e.g. 9:00-10:00/7)
+			cs.split = 2 + c.Draw("split", 10)
 		}
 		cs.endMin = clockMin("to")
 		if cs.endMin == cs.startMin {
@@ -375,10 +436,19 @@ func verifBodyC16(s *verifEngC, gc *check.C) {
 			c.Nontrivial()
 			why := ""
 			switch {
-			case N.After(L.Add(maxPost).Add(time.Hour)):
+			case N.After(L.Add(maxPost).Add(time.Hour)) && !verifInWindows(events, N):
+				// (inside a window that opened before the limit a later moment is fine:
+				// the statement bounds where the chosen window starts)
 				c.Violate("C16/postponed-past-limit", "next refresh %s is later than the maximum postponement after the last refresh %s", N.Format(time.RFC3339), L.Format(time.RFC3339))
 			case verifInWindows(events, N):
 				why = "in-window"
+				// no chosen window starts later than the limit
+				if ws, ok := verifEarliestWindowStart(events, N); ok && ws.After(L.Add(maxPost).Add(time.Minute)) && N.After(L.Add(maxPost).Add(time.Minute)) {
+					c.Violate("C16/window-starts-after-limit", "next refresh %s is in a window of the timer that starts at %s, later than the maximum postponement after the last refresh %s (limit %s)", N.Format(time.RFC3339), ws.Format(time.RFC3339), L.Format(time.RFC3339), L.Add(maxPost).Format(time.RFC3339))
+				}
+				if !L.Add(maxPost).After(N) {
+					c.Count("probe:in-window-at-or-after-the-limit")
+				}
 			case !N.Before(L.Add(maxPost)):
 				why = "at-limit"
 			case !N.After(now.Add(time.Second)):
@@ -423,7 +493,32 @@ func verifBodyC16(s *verifEngC, gc *check.C) {
 		}
 		// next event
 		var d time.Duration
-		switch c.Draw("step-kind", 7) {
+		switch c.Draw("step-kind", 8) {
+		case 7: // the postponement limit falls shortly before the next window opens
+			now := time.Now()
+			var ws time.Time
+			for tau := now.Add(61 * time.Minute).Truncate(time.Minute); tau.Before(now.Add(9 * 24 * time.Hour)); tau = tau.Add(time.Minute) {
+				if verifInWindows(events, tau) && !verifInWindows(events, tau.Add(-time.Minute)) {
+					ws = tau
+					break
+				}
+			}
+			if !ws.IsZero() {
+				x := time.Duration(1+c.Draw("limit-before-window-min", 59)) * time.Minute
+				nl := ws.Add(-maxPost).Add(-x)
+				st.Lock()
+				st.Set("last-refresh", nl)
+				st.Unlock()
+				nm, err := snapstate.Manager(st, state.NewTaskRunner(st))
+				if err != nil {
+					c.Fatalf("snapstate.Manager: %v", err)
+				}
+				mgr = nm
+				prevNext = time.Time{}
+				c.Logf("last refresh set to %s: the limit falls %v before the window opening at %s; snapd restarted", nl.Format("2006-01-02 15:04"), x, ws.Format("Mon 2006-01-02 15:04"))
+				c.Count("probe:limit-shortly-before-a-window")
+			}
+			d = 0
 		case 0:
 			d = 5 * time.Minute
 		case 1:
